@@ -27,7 +27,12 @@ D = "libtw2_demo::"
 
 
 def run(ctx, rep):
-    standard_totality(ctx, rep, "C15", TABLES, rule="R-no-panic")
+    standard_totality(ctx, rep, "C15", TABLES, rule="R-no-panic", extra_reviewed={
+        'libtw2_snapshot::snap::Builder::add_item | panic-call | panic_2021! | 1':
+            "assert!(next_type_id < 0x8000): in the demo writer the builder is only ever recycled from snapshots it built itself, "
+            "whose registry ids are dense from 0x4000 and at most 1024 per snapshot, so next_type_id stays below 0x4000 + 1024 + 256 "
+            "(the site is a known finding of C11, where received snapshots can carry arbitrary registry ids)",
+    })
     header_tables(ctx.prog, rep)
     strictness(ctx.prog, rep)
     reader_ticks(ctx.prog, rep)
